@@ -112,23 +112,34 @@ class FindIdentifiers(_ast_util.NodeVisitor):
         self._add_declared(node.name)
         self._visit_function(node, False)
 
-    def visit_ListComp(self, node):
-        if self.in_function:
-            for comp in node.generators:
-                self.visit(comp.target)
-                self.visit(comp.iter)
-        else:
+    def _visit_comprehension(self, node, *elements):
+        if not self.in_function:
             self.generic_visit(node)
+            return
+
+        # inside a function a comprehension is a scope of its own: only
+        # the first iterable is evaluated outside of it, the targets are
+        # local to it, and the conditions and elements are read within it
+        local_ident_stack = self.local_ident_stack
+        self.visit(node.generators[0].iter)
+        self.local_ident_stack = set(local_ident_stack)
+        for index, comp in enumerate(node.generators):
+            if index:
+                self.visit(comp.iter)
+            self.visit(comp.target)
+            for if_ in comp.ifs:
+                self.visit(if_)
+        for element in elements:
+            self.visit(element)
+        self.local_ident_stack = local_ident_stack
+
+    def visit_ListComp(self, node):
+        self._visit_comprehension(node, node.elt)
 
     visit_SetComp = visit_GeneratorExp = visit_ListComp
 
     def visit_DictComp(self, node):
-        if self.in_function:
-            for comp in node.generators:
-                self.visit(comp.target)
-                self.visit(comp.iter)
-        else:
-            self.generic_visit(node)
+        self._visit_comprehension(node, node.key, node.value)
 
     def _expand_tuples(self, args):
         for arg in args:
